@@ -1,2 +1,61 @@
-/-! placeholder driver (property C02 not built yet) -/
-def main : IO Unit := IO.println "bad-op"
+import LlgoVerif.Util
+import LlgoVerif.Spec.GoArith
+/-! Line-protocol driver for C02: evaluates the Go specification (`Spec/GoArith.lean`).
+    request: `<cls> <s:0|1> <w> <s2> <w2> <c> <x> <y>`  (x, y: decimal bit patterns; c: constant operand or 0)
+    answer : decimal bit pattern of the result (w or w2 bits) | `panic divzero` | `panic negshift` -/
+open LlgoVerif LlgoVerif.Util
+
+def showE {w : Nat} (e : Except GoArith.Panic (BitVec w)) : String :=
+  match e with
+  | .ok v => toString v.toNat
+  | .error .divZero => "panic"
+  | .error .negShift => "panic"
+
+def b2s (b : Bool) : String := if b then "1" else "0"
+
+/-- shifts use the evaluation-safe forms (proved equal to the mathematical ones in Lemmas/Arith.lean) -/
+def shlSafe (sy : Bool) (x : BitVec w) (y : BitVec u) : Except GoArith.Panic (BitVec w) :=
+  if GoArith.val sy y < 0 then .error .negShift else .ok (GoArith.shlE x (GoArith.val sy y).toNat)
+def shrSafe (sx sy : Bool) (x : BitVec w) (y : BitVec u) : Except GoArith.Panic (BitVec w) :=
+  if GoArith.val sy y < 0 then .error .negShift else .ok (GoArith.shrE sx x (GoArith.val sy y).toNat)
+
+def evalOp (cls : String) (s : Bool) (w : Nat) (s2 : Bool) (w2 : Nat) (c : Int) (xn yn : Nat) : String :=
+  let x := BitVec.ofNat w xn
+  let y := BitVec.ofNat w yn
+  let yc := BitVec.ofInt w c
+  match cls with
+  | "add" => toString (GoArith.add s x y).toNat
+  | "sub" => toString (GoArith.sub s x y).toNat
+  | "mul" => toString (GoArith.mul s x y).toNat
+  | "quo" => showE (GoArith.quo s x y)
+  | "rem" => showE (GoArith.rem s x y)
+  | "and" => toString (x &&& y).toNat
+  | "or" => toString (x ||| y).toNat
+  | "xor" => toString (x ^^^ y).toNat
+  | "andnot" => toString (x &&& ~~~y).toNat
+  | "neg" => toString (GoArith.neg s x).toNat
+  | "not" => toString (~~~x).toNat
+  | "eq" => b2s (GoArith.eq s x y)
+  | "ne" => b2s (!GoArith.eq s x y)
+  | "lt" => b2s (GoArith.lt s x y)
+  | "le" => b2s (GoArith.le s x y)
+  | "gt" => b2s (GoArith.lt s y x)
+  | "ge" => b2s (GoArith.le s y x)
+  | "shl" => showE (shlSafe s2 x (BitVec.ofNat w2 yn))
+  | "shr" => showE (shrSafe s s2 x (BitVec.ofNat w2 yn))
+  | "conv" => toString (GoArith.conv s w2 x).toNat
+  | "quoc" => showE (GoArith.quo s x yc)
+  | "remc" => showE (GoArith.rem s x yc)
+  | "shlc" => toString (GoArith.shlE x c.toNat).toNat
+  | "shrc" => toString (GoArith.shrE s x c.toNat).toNat
+  | _ => "bad-op"
+
+def handle (line : String) : String :=
+  match fields line with
+  | [cls, s, w, s2, w2, c, x, y] =>
+    match w.toNat?, w2.toNat?, c.toInt?, x.toNat?, y.toNat? with
+    | some w, some w2, some c, some x, some y => evalOp cls (s == "1") w (s2 == "1") w2 c x y
+    | _, _, _, _, _ => "bad-op"
+  | _ => "bad-op"
+
+def main : IO Unit := lineLoop handle
